@@ -10,6 +10,7 @@ package ecs
 // digest of the hidden state for before/after comparison.
 
 import (
+	"bytes"
 	"fmt"
 	"hash/fnv"
 	"reflect"
@@ -50,11 +51,18 @@ func verifBytes(p unsafe.Pointer, n int) []byte {
 	return unsafe.Slice((*byte)(p), n)
 }
 
+var verifZeros = make([]byte, 4096)
+
 func verifAllZero(b []byte) bool {
-	for _, x := range b {
-		if x != 0 {
+	for len(b) > 0 {
+		n := len(b)
+		if n > len(verifZeros) {
+			n = len(verifZeros)
+		}
+		if !bytes.Equal(b[:n], verifZeros[:n]) {
 			return false
 		}
+		b = b[n:]
 	}
 	return true
 }
@@ -264,7 +272,7 @@ func (w *World) verifCheckInvariants() error {
 		if nd.HasRelation && (rels.TotalBitsSet() != 1 || !rels.Get(nd.Relation)) {
 			return fmt.Errorf("I5 node %s relation component %d disagrees with registry", verifMaskString(&nd.Mask), int(nd.Relation.id))
 		}
-		for c := 0; c < MaskTotalBits; c++ {
+		for c := 0; c < regCount && !nd.neighbors.used.IsZero(); c++ {
 			nb, ok := nd.neighbors.Get(uint8(c))
 			if !ok {
 				continue
